@@ -398,7 +398,7 @@ func lemmaTNBits(bit byte) (ok bool) {
 //@   assert at call f: firstByte & 0xE0 == 0x20 ==> ($0 == neverIndex <==> firstByte & 0x10 != 0) && ($0 == mayIndex <==> firstByte & 0x10 == 0)
 //@   loop 1 invariant st.stream == old(st.stream) && st.stream != nil && (old(st.lim) >= 0 ==> st.lim >= 0) && (old(st.lim) < 0 ==> st.lim == old(st.lim))
 //@   loop 1 invariant requiredInsertCount == 0
-//@   loop 1 step atiter(sawNonPseudo) ==> sawNonPseudo
+//@   loop 1 step iterstart(sawNonPseudo) ==> sawNonPseudo
 //@   loop 1 modifies st.lim, st.stream, st.stream.inbuf, st.stream.inbufoff
 //@   trustcall f
 //@   modifies st.lim, st.stream, st.stream.inbuf, st.stream.inbufoff
